@@ -125,6 +125,25 @@ impl Prop for C17 {
             },
         ));
         f.push(Family::new(
+            "glued-operators",
+            Mode::Full,
+            "number literals written directly onto '*', '/', '(' and ')' without blanks: 'A*B', 'A/B', '(A)', '2*(B)', 'ö *B # ₺' for A, B in [7, 12,5, 0x1F, 0XFF, 0xAF, 0x1aed, 0x2bbd, 0xCD, 0b101, 0o17, 1.000] (hex literals whose tail reads as digits plus a currency code included): each literal is one Number token covering exactly its characters",
+            move |ch| {
+                let lits = ["7", "12,5", "0x1F", "0XFF", "0xAF", "0x1aed", "0x2bbd", "0xCD", "0b101", "0o17", "1.000"];
+                let a = *ch.pick(&lits);
+                let b = *ch.pick(&lits);
+                let n = |s: &str| s.chars().count();
+                let (text, must): (String, Vec<(usize, usize, String)>) = match ch.choose(5) {
+                    0 => (format!("{}*{}", a, b), vec![(0, n(a), "Number".into()), (n(a), n(a) + 1, "Operator".into()), (n(a) + 1, n(a) + 1 + n(b), "Number".into())]),
+                    1 => (format!("{}/{}", a, b), vec![(0, n(a), "Number".into()), (n(a), n(a) + 1, "Operator".into()), (n(a) + 1, n(a) + 1 + n(b), "Number".into())]),
+                    2 => (format!("({})", a), vec![(1, 1 + n(a), "Number".into())]),
+                    3 => (format!("2*({})", b), vec![(0, 1, "Number".into()), (3, 3 + n(b), "Number".into())]),
+                    _ => (format!("ö *{} # ₺", b), vec![(3, 3 + n(b), "Number".into())]),
+                };
+                Some(Case { seq: SeqCase { lang: "en".into(), text, now: None }, must, user_unit: false })
+            },
+        ));
+        f.push(Family::new(
             "bom-and-user-units",
             Mode::Full,
             "lines '[BOM]<lead><a> <op> <b>[ # c]' where <lead> is nothing or a multi-byte word, <a> / <b> are a number, a user-unit quantity written value-first ('5 qq') or unit-first ('qq 5') or a built-in quantity ('3 km'), optionally with U+FEFF as the very first character of the text: every number literal and operator is reported at its own character positions (positions count the BOM)",
